@@ -1,9 +1,60 @@
 import WzVerif.Driver.Proto
+import WzVerif.Model.Chunked
 namespace Wz.Driver.C19
-open Wz Wz.Proto
+open Wz Wz.Proto Wz.Chunked
 
-/-- stub: no model commands yet -/
+def natList (s : String) : Option (List Nat) :=
+  if s == "[]" then some [] else (s.splitOn ",").mapM String.toNat?
+
+def showRes : Res → String
+  | .ok b => "ok:" ++ hex b
+  | .error e => "EXC:" ++ e
+
+/-- `hexdata:c|l:u|d,...` -/
+def chunkList (s : String) : Option (List (Bytes × Term × Bool)) :=
+  if s == "[]" then some [] else
+  (s.splitOn ",").mapM fun p =>
+    match p.splitOn ":" with
+    | [d, t, u] =>
+      match unhex d, (if t == "c" then some Term.crlf else if t == "l" then some Term.lf else none),
+          (if u == "u" then some true else if u == "d" then some false else none) with
+      | some d, some t, some u => some (d, t, u)
+      | _, _, _ => none
+    | _ => none
+
+def bytesList (s : String) : Option (List Bytes) :=
+  if s == "[]" then some [] else (s.splitOn ",").mapM unhex
+
 def handle : Handler
+  | "dechunk.run", [wire, sizes] =>
+    match unhex wire, natList sizes with
+    | some wire, some sizes =>
+      let (rs, st) := readMany { wire := wire } sizes
+      some (";".intercalate (rs.map showRes) ++ "|" ++ toString st.len ++ "|" ++ outBool st.done ++ "|"
+        ++ toString st.wire.length)
+    | _, _ => some badArgs
+  | "chunk.len", [line] =>
+    match unhex line with
+    | some line => some (match chunkLenOf line with | .ok n => toString n | .error e => "EXC:" ++ e)
+    | none => some badArgs
+  | "chunk.encode", [chunks, tf] =>
+    match chunkList chunks, (if tf == "c" then some Term.crlf else if tf == "l" then some Term.lf else none) with
+    | some chunks, some tf => some (hex (encode chunks tf))
+    | _, _ => some badArgs
+  | "frame.decide", [p11, hasCl, isHead, code] =>
+    match boolArg p11, boolArg hasCl, boolArg isHead, natArg code with
+    | some p11, some hasCl, some isHead, some code => some (outBool (chunkedDecision p11 hasCl isHead code))
+    | _, _, _, _ => some badArgs
+  | "resp.frame", [p11, hasCl, isHead, code, pieces] =>
+    match boolArg p11, boolArg hasCl, boolArg isHead, natArg code, bytesList pieces with
+    | some p11, some hasCl, some isHead, some code, some pieces =>
+      let c := chunkedDecision p11 hasCl isHead code
+      some (outBool c ++ "|" ++ hex (bodyWire c pieces))
+    | _, _, _, _, _ => some badArgs
+  | "resp.body", [chunked, pieces] =>
+    match boolArg chunked, bytesList pieces with
+    | some chunked, some pieces => some (hex (bodyWire chunked pieces))
+    | _, _ => some badArgs
   | _, _ => none
 
 end Wz.Driver.C19
